@@ -527,7 +527,7 @@ def where_parked(task):
     while fr is not None:
         fn = fr.f_code.co_filename
         if "/paramiko/" in fn:
-            best = "%s:%s" % (fn.rsplit("/", 1)[1], fr.f_code.co_name)
+            best = "%s:%s" % (fn.rsplit("/", 1)[-1], fr.f_code.co_name)
             break
         fr = fr.f_back
     return best
@@ -542,7 +542,7 @@ def stack_of(task, limit=12):
     while fr is not None and len(out) < limit:
         fn = fr.f_code.co_filename
         if "/sim/" not in fn:
-            out.append("%s:%d:%s" % (fn.rsplit("/", 1)[1], fr.f_lineno, fr.f_code.co_name))
+            out.append("%s:%d:%s" % (fn.rsplit("/", 1)[-1], fr.f_lineno, fr.f_code.co_name))
         fr = fr.f_back
     return out
 
